@@ -352,8 +352,53 @@ def replay_widen(r):
     return bool(bad), {'function': 'BaseMatcher.increase_max_lattice_width', 'old_width': wo, 'new_width': wn, 'unique': uniq, 'failed': bad}
 
 
+def replay_only_nodes(r):
+    """the solver's model names only an arbitrary iteration; a concrete failing input for the real node_path_to_only_nodes is
+    searched among ALL state sequences of length <= 3 over three labels (nodes and edges mixed), against the specification of
+    vc_only_nodes written out as a reference function"""
+    import itertools
+    from leuvenmapmatching.matcher.simple import SimpleMatcher
+    from leuvenmapmatching.map.inmem import InMemMap
+    m = SimpleMatcher(InMemMap('replay', use_latlon=False))
+    jumps = 'jumps allowed' in r.ob.name
+
+    def ref(path):
+        first = path[0]
+        out = list(first) if isinstance(first, tuple) else [first]
+        for prev, cur in zip(path, path[1:]):
+            p = out[-1]
+            if cur == prev:
+                continue
+            if not isinstance(cur, tuple):
+                if cur != p:
+                    out.append(cur)
+            elif p in cur:
+                other = cur[1] if cur[0] == p else cur[0]
+                if other != p:
+                    out.append(other)
+            elif not jumps:
+                return 'raises'
+            else:
+                out.extend(cur)
+        return out
+    states = [0, 1, 2] + [(a, b) for a in range(3) for b in range(3)]
+    for n in (1, 2, 3):
+        for path in itertools.product(states, repeat=n):
+            want = ref(list(path))
+            try:
+                got = m.node_path_to_only_nodes(list(path), allow_jumps=jumps)
+            except Exception as e:
+                got = 'raises'
+            if got != want:
+                return True, {'function': 'BaseMatcher.node_path_to_only_nodes', 'allow_jumps': jumps, 'states': [list(x) if isinstance(x, tuple) else x for x in path],
+                              'returned': got, 'nodes_only_view_should_be': want}
+    return False, {'function': 'BaseMatcher.node_path_to_only_nodes', 'note': 'no failing sequence of <= 3 states over 3 labels'}
+
+
 def replayer(r):
     n = r.ob.name
+    if n.startswith('BaseMatcher.node_path_to_only_nodes'):
+        return replay_only_nodes(r)
     if n.startswith('BaseMatcher.increase_max_lattice_width'):
         return replay_widen(r)
     if n.startswith('LatticeColumn.set_delayed'):
